@@ -3,6 +3,7 @@ package sql
 import (
 	"fmt"
 	"io"
+	"os"
 	"strconv"
 	"strings"
 )
@@ -276,11 +277,20 @@ func (tl *TokenList) Advance() bool {
 type tokenScanner struct {
 	s   Scanner
 	cur rune
+	// openComment is set when the input ended inside a /* comment
+	openComment bool
 }
 
 func NewTokenScanner(src io.Reader) *tokenScanner {
 	ts := &tokenScanner{}
 	ts.s.Init(src)
+	ts.s.Error = func(s *Scanner, msg string) {
+		if msg == "comment not terminated" {
+			ts.openComment = true
+			return
+		}
+		fmt.Fprintf(os.Stderr, "%s: %s\n", s.Pos(), msg)
+	}
 	return ts
 }
 
@@ -292,6 +302,10 @@ func (ts *tokenScanner) Cur() Token {
 	switch ts.cur {
 	case EOF:
 		tok.Type = EOF
+	case Comment:
+		// a comment that is never closed: like an unterminated literal
+		tok.Type = ILLEGAL
+		tok.Text = "/*"
 	case Ident:
 		tok.Type = IDENT
 		tok.Text = ts.s.TokenText()
@@ -359,6 +373,17 @@ func unquote(text string) (string, bool) {
 }
 
 func (ts *tokenScanner) Next() bool {
+	if ts.cur == Comment {
+		// the ILLEGAL token of the open comment was the last one
+		ts.cur = EOF
+		return false
+	}
 	ts.cur = ts.s.Scan()
+	if ts.openComment {
+		// the comment swallowed the rest of the input: hand out one ILLEGAL
+		// token in its place so that the parser refuses the statement
+		ts.cur = Comment
+		return true
+	}
 	return ts.cur != EOF
 }
